@@ -20,6 +20,8 @@
 #![allow(dead_code, unused_imports, clippy::all)]
 
 use super::*;
+#[path = "nd.rs"]
+pub(super) mod nd;
 use crate::config::{
     MissingServerState, ServerStateCreation, SessionCookieConfig, SessionCookieKind,
     SessionStateConfig, TtlExtensionThreshold, TtlExtensionTrigger,
@@ -69,7 +71,7 @@ pub(super) fn fmt_stub(_a: std::fmt::Arguments<'_>) -> String {
 // ---------------------------------------------------------------------------------------------
 #[cfg(test)]
 pub(super) fn vtrace(line: String) {
-    eprintln!("VTRACE {line}");
+    nd::trace(|| line);
 }
 #[cfg(not(test))]
 pub(super) fn vtrace_world(_w: &World) {}
@@ -109,27 +111,23 @@ pub(super) fn vtrace_op(name: &str, key: usize, v: Code) {
 
 /// a present value (code 1..=3)
 pub(super) fn any_value() -> Code {
-    let k: u8 = kani::any();
-    kani::assume(k >= 1 && k <= 3);
-    k
+    1 + nd::u8_below(3)
 }
 /// a value or nothing (code 0..=3)
 pub(super) fn any_opt_value() -> Code {
-    let k: u8 = kani::any();
-    kani::assume(k <= 3);
-    k
+    nd::u8_below(4)
 }
 pub(super) fn any_vmap() -> VMap {
     [any_opt_value(), any_opt_value()]
 }
 pub(super) fn any_key() -> (usize, &'static str) {
-    if kani::any() { (0, KA) } else { (1, KB) }
+    if nd::any_bool() { (0, KA) } else { (1, KB) }
 }
 pub(super) fn to_state(m: &VMap) -> State {
     // "a" may sit in either slot: the slot order of a real map is arbitrary too
     let ea = dec(m[0]).map(|v| (Cow::Borrowed(KA), v));
     let eb = dec(m[1]).map(|v| (Cow::Borrowed(KB), v));
-    if kani::any() { State::from_slots([ea, eb]) } else { State::from_slots([eb, ea]) }
+    if nd::any_bool() { State::from_slots([ea, eb]) } else { State::from_slots([eb, ea]) }
 }
 /// Read a map back. Keys outside the bound ({"a","b"}) or duplicates make the result `None`-free
 /// garbage on purpose: `of_state` is only meaningful together with `state_ok`.
@@ -185,7 +183,7 @@ pub(super) fn slot_of(id: &SessionId) -> usize {
         3
     } else {
         // no other id exists within the bound of the harness
-        kani::assume(false);
+        nd::assume(false);
         0
     }
 }
@@ -311,12 +309,12 @@ pub(super) const FRESH_TTL: u64 = 100;
 pub(super) fn any_state_config() -> SessionStateConfig {
     let mut c = SessionStateConfig::default();
     c.ttl = Duration::from_secs(FRESH_TTL);
-    c.extend_ttl = if kani::any() { TtlExtensionTrigger::OnStateLoadsAndChanges } else { TtlExtensionTrigger::OnStateChanges };
+    c.extend_ttl = if nd::any_bool() { TtlExtensionTrigger::OnStateLoadsAndChanges } else { TtlExtensionTrigger::OnStateChanges };
     // the threshold is either absent or the documented default 0.8 (a symbolic f32 would turn
     // Duration::mul_f32 into a floating-point bit-blasting problem; stated bound)
-    c.ttl_extension_threshold = if kani::any() { None } else { Some(TtlExtensionThreshold::new(0.8).unwrap()) };
-    c.server_state_creation = if kani::any() { ServerStateCreation::NeverSkip } else { ServerStateCreation::SkipIfEmpty };
-    c.missing_server_state = if kani::any() { MissingServerState::Allow } else { MissingServerState::Reject };
+    c.ttl_extension_threshold = if nd::any_bool() { None } else { Some(TtlExtensionThreshold::new(0.8).unwrap()) };
+    c.server_state_creation = if nd::any_bool() { ServerStateCreation::NeverSkip } else { ServerStateCreation::SkipIfEmpty };
+    c.missing_server_state = if nd::any_bool() { MissingServerState::Allow } else { MissingServerState::Reject };
     c
 }
 
@@ -374,13 +372,11 @@ pub(super) fn any_shape() -> Shape {
 }
 /// `only`: restrict the id kind (used to split one obligation into three smaller queries).
 pub(super) fn any_shape_k(only: Option<IdK>) -> Shape {
-    let s: u8 = kani::any();
-    kani::assume(s < 5);
+    let s: u8 = nd::u8_below(5);
     let idk = match only {
         Some(k) => k,
         None => {
-            let i: u8 = kani::any();
-            kani::assume(i < 3);
+            let i: u8 = nd::u8_below(3);
             match i {
                 0 => IdK::Existing,
                 1 => IdK::ToBeRenamed,
@@ -395,16 +391,15 @@ pub(super) fn any_shape_k(only: Option<IdK>) -> Shape {
         3 => SsK::MarkedForDeletion,
         _ => SsK::Changed,
     };
-    let rem_ttl: u64 = kani::any();
-    kani::assume(rem_ttl <= FRESH_TTL);
+    let rem_ttl: u64 = nd::u64_in(0, FRESH_TTL);
     Shape {
         idk,
         ssk,
         smap: if ssk == SsK::Unchanged || ssk == SsK::Changed { any_vmap() } else { EMPTY },
         rem_ttl,
-        client_updated: kani::any(),
+        client_updated: nd::any_bool(),
         cmap: any_vmap(),
-        invalidated: kani::any(),
+        invalidated: nd::any_bool(),
         old: ID_O,
         cur: if idk == IdK::ToBeRenamed { ID_N } else { ID_O },
     }
@@ -414,9 +409,8 @@ pub(super) fn any_db() -> &'static RefCell<Db> {
     let mut recs = [NOREC; 4];
     let mut i = 0;
     while i < 3 {
-        if kani::any() {
-            let ttl: u64 = kani::any();
-            kani::assume(ttl <= FRESH_TTL);
+        if nd::any_bool() {
+            let ttl: u64 = nd::u64_in(0, FRESH_TTL);
             recs[i] = Rec { present: true, state: any_vmap(), ttl };
         }
         i += 1;
@@ -739,7 +733,7 @@ pub(super) fn any_world(cookie: SessionCookieConfig) -> World {
 pub(super) fn any_world_k(cookie: SessionCookieConfig, only: Option<IdK>) -> World {
     let sh = any_shape_k(only);
     let db = any_db();
-    kani::assume(inv(&sh, &db.borrow()));
+    nd::assume(inv(&sh, &db.borrow()));
     let cfg = leak_config(any_state_config(), cookie);
     let store: &'static SessionStore = Box::leak(Box::new(SessionStore::new(Mem(db))));
     let allow = cfg.state.missing_server_state == MissingServerState::Allow;
@@ -785,7 +779,7 @@ fn c11_step_server_get() {
     let s = build(&w.sh, w.store, w.cfg);
     let mut m = w.model;
     let (ki, k) = any_key();
-    if kani::any() {
+    if nd::any_bool() {
         vtrace_op("server_get", ki, NONE);
         let got = s.get_raw(k).map(|o| enc(o.copied()));
         let want = m.server_get(&w.db.borrow(), w.allow, ki);
@@ -858,8 +852,7 @@ fn c11_step_server_lifecycle() {
     let w = any_world(default_cookie());
     let mut s = build(&w.sh, w.store, w.cfg);
     let mut m = w.model;
-    let op: u8 = kani::any();
-    kani::assume(op < 5);
+    let op: u8 = nd::u8_below(5);
     vtrace_op(["server_clear", "delete", "invalidate", "cycle_id", "force_load"][op as usize], 0, NONE);
     match op {
         0 => {
@@ -918,8 +911,7 @@ fn c11_step_client_ops() {
     let mut s = build(&w.sh, w.store, w.cfg);
     let mut m = w.model;
     let (ki, k) = any_key();
-    let op: u8 = kani::any();
-    kani::assume(op < 5);
+    let op: u8 = nd::u8_below(5);
     let cv = any_value();
     vtrace_op(["client_get", "client_is_empty", "client_insert", "client_remove", "client_clear"][op as usize], ki, if op == 2 { cv } else { NONE });
     match op {
@@ -1109,7 +1101,7 @@ fn c11_sync_new() {
 /// the first call sync makes. The values the request ended with must still reach the next request.
 fn sync_race_body(only: IdK) -> SyncOut {
     let w0 = any_world_k(default_cookie(), Some(only));
-    kani::assume(w0.db0[0].present);
+    nd::assume(w0.db0[0].present);
     w0.db.borrow_mut().expire_o_now = true;
     let mut s = build(&w0.sh, w0.store, w0.cfg);
     vtrace_op("sync_with_expiry_race", 0, NONE);
@@ -1303,3 +1295,18 @@ fn c11_finalize_new() {
     kani::cover!(code == 3 && client_vals, "cookie with client-side values");
 }
 
+
+/// Native search for a concrete failing input (see nd.rs); only built when a counterexample has to
+/// be made concrete.
+#[cfg(test)]
+mod native_search {
+    use super::*;
+    pub(in super::super) fn reset() {
+        uuid::verif_reset();
+        serde_json::verif::set_tape(serde_json::verif::EMPTY_TAPE);
+    }
+    macro_rules! searches { ($($h:ident),*) => { $( #[test] fn $h() { nd::search(stringify!($h), super::$h, reset) } )* } }
+    searches!(c11_step_server_get, c11_step_server_insert, c11_step_server_remove, c11_step_server_lifecycle, c11_step_client_ops,
+              c11_sync_existing, c11_sync_renamed, c11_sync_new, c11_sync_race_renamed, c11_sync_race_existing,
+              c11_finalize_existing, c11_finalize_renamed, c11_finalize_new);
+}
